@@ -16,7 +16,7 @@ MANIFEST_INFO = {
     "engine": "A",
     "design_ref": "DESIGN.md section 5, C02",
     "technique": "stateless deviation-bounded DFS over stage/cleanup/fixture behaviours of generated TestCase programs whose cleanups, patches and (nested) fixtures are registered at every site (setUp before/after the up-call, test, tearDown, inside another cleanup); execution log compared with the stack-discipline lifecycle model; second run() of the same instance replayed from memoised decisions",
-    "level_text": "For every ordered selection of up to 3 registrations from 16 kinds (cleanup at 4 sites, cleanup registered by a cleanup, patch of an existing/missing attribute incl. double patch, fixture at 3 sites, nested fixture) and every program with at most 2 (quick) / 3 (thorough) deviating stages or fixture hooks, the real run is compared with the model: setUp first, test+tearDown iff setUp returned, then the cleanup stack popped to empty (each registration exactly once, LIFO, BaseExceptions included), patched attributes restored, and a second run() of the same instance produces the same log and outcome. Two clones of one prototype (clone_test_with_new_id) are additionally run as two threads under the scheduler, every stage body being a scheduling point (<= 2 preemptions/deviations): each clone must run exactly its own cleanups.",
+    "level_text": "For every ordered selection of up to 3 registrations from 19 kinds (cleanup at 4 sites, cleanup registered by a cleanup, patch of an existing/missing attribute incl. double patch, fixture at 3 sites, nested fixture, a fixture whose getDetails raises after a successful setUp, an addOnException handler that itself raises when told about an exception of the test method or tearDown) and every program with at most 2 (quick) / 3 (thorough) deviating stages or fixture hooks, the real run is compared with the model: setUp first, test+tearDown iff setUp returned, then the cleanup stack popped to empty (each registration exactly once, LIFO, BaseExceptions included), patched attributes restored, and a second run() of the same instance produces the same log and outcome. Two clones of one prototype (clone_test_with_new_id) are additionally run as two threads under the scheduler, every stage body being a scheduling point (<= 2 preemptions/deviations): each clone must run exactly its own cleanups.",
     "level_note": "Programs always up-call; fixtures use the fixtures 4.x _setUp protocol; attribute writes on the patched object are logged by the object itself.",
 }
 
@@ -37,18 +37,34 @@ REGS = (
     "fixture@test",
     "fixture@tearDown",
     "nested_fixture@setUp",
+    "fixture_baddetails@test",
+    "fixture_baddetails@setUp",
+    "onexc_raiser@setUp",
 )
 
 FX_SETUP_MENU = (pg.RET, pg.ERROR, pg.KBI)
 FX_CLEAN_MENU = (pg.RET, pg.ERROR)
 
 
+class HandlerBroke(Exception):
+    """Raised by an addOnException handler (not by a stage or a cleanup)."""
+
+
 class VFixture(fixtures.Fixture):
-    def __init__(self, ctx, fid, inner=None):
+    def __init__(self, ctx, fid, inner=None, bad_details=False):
         super().__init__()
         self._ctx = ctx
         self._fid = fid
         self._inner = inner
+        self._bad_details = bad_details
+
+    def getDetails(self):
+        if self._bad_details:
+            # setUp worked, but collecting the details does not (a log file that went away, say)
+            stage = "fx:%s.getDetails" % self._fid
+            self._ctx.raised.append((stage, pg.ERROR, "%s!error" % stage))
+            raise pg.VerifError("%s!error" % stage)
+        return super().getDetails()
 
     def _setUp(self):
         ctx = self._ctx
@@ -57,7 +73,7 @@ class VFixture(fixtures.Fixture):
         if self._inner is not None:
             self.useFixture(VFixture(ctx, self._inner))
         self.addCleanup(self._clean)
-        k = ctx.decide(stage, FX_SETUP_MENU)
+        k = ctx.decide(stage, (pg.RET,) if self._bad_details else FX_SETUP_MENU)
         _raise(ctx, stage, k)
 
     def _clean(self):
@@ -85,7 +101,27 @@ def do_fixture(case, ctx, site, action):
     case.useFixture(VFixture(ctx, fid, inner))
 
 
+def do_bad_fixture(case, ctx, site, action):
+    case.useFixture(VFixture(ctx, action[1], None, bad_details=True))
+
+
+def do_onexc_raiser(case, ctx, site, action):
+    """An addOnException handler that itself raises when it is told about an exception of the
+    test method or of tearDown.  RunTest._run_user then raises out of that stage; the nested
+    try/finally blocks of _run_core still owe tearDown and every cleanup their run.  (Exceptions of
+    setUp and of cleanups are left alone: there the unmodified code gives no such guarantee and
+    C02's quantifier does not include raising handlers at all.)"""
+
+    def handler(exc_info):
+        if str(exc_info[1]).startswith(("test!", "tearDown!")):
+            raise HandlerBroke("handler choked on %s" % (exc_info[1],))
+
+    case.addOnException(handler)
+
+
 pg.ACTION_HANDLERS["fixture"] = do_fixture
+pg.ACTION_HANDLERS["bad_fixture"] = do_bad_fixture
+pg.ACTION_HANDLERS["onexc_raiser"] = do_onexc_raiser
 
 
 def _model_fx_setup(model, fid, inner):
@@ -142,7 +178,22 @@ def model_fixture_pop(model, item):
         _model_fx_clean(model, fid)
 
 
+def model_bad_fixture_action(model, site, action):
+    fid = action[1]
+    if not hasattr(model, "fx_raised"):
+        model.fx_raised = []
+    stage = "fx:%s.setUp" % fid
+    model.stages.append(("run", stage))
+    if model.decide(stage) != pg.RET:
+        raise AssertionError("bad-details fixtures never fail setUp")
+    # useFixture registers fixture.cleanUp BEFORE it asks for the details
+    model.stack.append(("fxclean", (fid,)))
+    raise pg.ModelAbort(pg.ERROR)
+
+
 pg.MODEL_ACTION_HANDLERS["fixture"] = model_fixture_action
+pg.MODEL_ACTION_HANDLERS["bad_fixture"] = model_bad_fixture_action
+pg.MODEL_ACTION_HANDLERS["onexc_raiser"] = lambda model, site, action: None
 pg.MODEL_STACK_HANDLERS["fxclean"] = model_fixture_pop
 
 
@@ -173,6 +224,10 @@ def build_actions(regs):
             actions.setdefault(site, []).append(("fixture", rid, None))
         elif kind == "nested_fixture":
             actions.setdefault(site, []).append(("fixture", rid, rid + "i"))
+        elif kind == "fixture_baddetails":
+            actions.setdefault(site, []).append(("bad_fixture", rid))
+        elif kind == "onexc_raiser":
+            actions.setdefault(site, []).append(("onexc_raiser", rid))
         else:
             raise AssertionError(r)
     return actions
@@ -383,7 +438,7 @@ def meta(tier):
     return {
         "technique": MANIFEST_INFO["technique"],
         "rule": "for every registration selection: every choice sequence with <= bound deviating stages / fixture hooks; each execution runs the instance twice; non-trivial = >= 1 deviation; distinct = distinct (registrations, execution log, outcome)",
-        "bounds": {"registrations": "all ordered selections of <=2 of 16 kinds; triples core x any x core (quick) / all triples plus all pairs between two plain cleanups (thorough)", "deviations": 2 if tier == "quick" else 3, "stage_kinds": list(KINDS)},
+        "bounds": {"registrations": "all ordered selections of <=2 of 19 kinds; triples core x any x core (quick) / all triples plus all pairs between two plain cleanups (thorough)", "deviations": 2 if tier == "quick" else 3, "stage_kinds": list(KINDS)},
         "assumptions": ["programs always up-call", "cleanup functions registered by the harness are distinct objects with unique ids"],
     }
 
